@@ -154,3 +154,31 @@ func VpC07_Foreign(a []int) {
 	vpObserveBool("err", err != nil)
 	vpReach("end")
 }
+
+// VpC07_Own: every type's Marshal output is dispatched back to that same type
+// (a = build arguments of a minimal well-formed packet).
+func VpC07_Own(a []int) {
+	c := vpBuild(a)
+	// SLI is marshalled as 205/2, which the dispatcher returns as RawPacket (pinned by tests)
+	vpKnown("KF-C07-sli-own-output", "C07.own-output", a[0] == vpKSLI)
+	if p, ok := c.pkt.(*CCFeedbackReport); ok {
+		wrap := false
+		for i := range p.ReportBlocks {
+			n := len(p.ReportBlocks[i].MetricBlocks)
+			if n >= 2 && int(p.ReportBlocks[i].BeginSequence)+n-1 > 65535 {
+				wrap = true
+			}
+		}
+		// the decoder rejects the library's own output when a block crosses 65535->0
+		vpKnown("KF-C07-ccfb-seq-wrap", "C07.own-output-accepted", wrap)
+	}
+	out, err := c.pkt.Marshal()
+	if err == nil {
+		ps, e2 := Unmarshal(out)
+		vpAssert("C07.own-output-accepted", e2 == nil && len(ps) == 1)
+		if e2 == nil && len(ps) == 1 {
+			vpAssert("C07.own-output-same-type", c.same(ps[0]))
+		}
+	}
+	vpReach("end")
+}
